@@ -99,6 +99,9 @@ type Case struct {
 	KeepDerived  bool         `json:"keep_derived,omitempty"`
 	Pkg2         []FileSpec        `json:"pkg2,omitempty"` // files of a second package q processed by the same invocation (goderive ./p ./q)
 	ExtraCalls   []CallSpec        `json:"extra_calls,omitempty"` // derive calls written in raw Extra files of package p (for the clash oracle only)
+	ExtraPkgs    []string          `json:"extra_pkgs,omitempty"` // further package directories (written from Extra) given to the same invocation after ./p
+	PreRunP      bool              `json:"pre_run_p,omitempty"`  // goderive is first run on ./p alone (a library generated earlier), then on all packages
+	GoBuild      bool              `json:"go_build,omitempty"`   // after a successful run the whole module must build (go build ./...)
 	GenHeader    bool              `json:"gen_header,omitempty"` // the user files start with a "Code generated … DO NOT EDIT." line (they are still the user's: calls are renamed in them)
 	ExtraFixed   bool              `json:"extra_fixed,omitempty"` // the raw Extra files of package p hold no derive call: a run must leave them as they are
 	NoModel      bool              `json:"no_model,omitempty"` // multi-pass / multi-package cases: no regall line of the Lean model
